@@ -19,6 +19,7 @@ def run(ctx):
     distance(ctx)
     threshold(ctx)
     update(ctx)
+    reference_and_lifecycle(ctx)
 
 
 def build(ctx):
@@ -158,3 +159,30 @@ def update(ctx):
                 break
         ok = d_act is not None and theta is not None and q.has_guard(ds[0], T.mk_cmp(">", d_act, theta))
         ctx.ob("GRD", site, "drift iff distance > threshold", ok, "", ds[0])
+
+
+def reference_and_lifecycle(ctx):
+    site = "NNDVI.update"
+    tr = ctx.trace("NNDVI", "update", assume={"_drift_state": None}, nonnull=("X",))
+    xv = q.validated(tr, 0)
+    tb = atom(("call", "numpy.array", (xv,), ())) if xv is not None else None
+    ds = [e for e in tr.stores("_drift_state") if e.value == const("drift")]
+    rf = [e for e in tr.stores("reference_batch")]
+    # on drift the test batch becomes the reference; otherwise the reference is kept
+    ok = len(ds) == 1 and len(rf) == 1 and set(map(id, ds[0].pc)) <= set(map(id, rf[0].pc)) and T.mentions(rf[0].value, lambda a: a == ("param", "X")) and \
+        not T.mentions(rf[0].value, lambda a: a == ("attr", "reference_batch"))
+    ctx.ob("PAIR", site, "on drift the test batch becomes the reference", ok, q.short(rf[0].value, 100) if rf else "no store of the reference", ds[0] if ds else None)
+    ctx.ob("PAIR", site, "without drift the reference is kept", all(set(map(id, ds[0].pc)) <= set(map(id, e.pc)) for e in rf) if ds else not rf, "")
+    bd = [e for e in tr.calls() if e.callee[0] == "foreign" and e.callee[2] == "build"]
+    ctx.ob("FWD", site, "the batch analysed is the validated batch of this call", bool(bd) and tb is not None and bd[0].args[1:2] == (tb,), q.short(bd[0].args[1], 80) if bd else "", bd[0] if bd else None)
+    ts = ctx.trace("NNDVI", "set_reference", nonnull=("X",))
+    xs = q.validated(ts, 0)
+    fin = ts.final.attrs if ts.final is not None else {}
+    ctx.ob("FWD", "NNDVI.set_reference", "the reference is the validated batch", xs is not None and fin.get("reference_batch") == xs, q.short(fin.get("reference_batch"), 80) if fin.get("reference_batch") is not None else "unset")
+    from . import common
+    common.lifecycle(ctx, ["NNDVI"])
+    tp = ctx.trace(NSP, "__init__")
+    at = tp.final.attrs if tp.final is not None else {}
+    ctx.ob("FWD-init", NSP + ".__init__", "k is kept", at.get("k") == P("k"), "")
+    for a_ in ("D", "v1", "v2", "nnps_matrix", "adjacency_matrix"):
+        ctx.ob("FRM-init", NSP + ".__init__", "%s starts unset (None)" % a_, at.get(a_) == T.NONE, "")
